@@ -38,6 +38,14 @@ def run_history(front, framing, cfg, seq, delivery='whole'):
     srv = servers.Server(front, framing, ctx, ignore_missing_slaves=cfg.ignore)
     conn = srv.open()
     outs = []
+    if delivery == 'burst':
+        # every request of the history arrives back to back, before the front-end gets to handle the first
+        frames = []
+        for i, tok in enumerate(seq):
+            unit, m = scenario.token(tok, i, cfg)
+            frames.append(scenario.frame(framing, unit, TIDS[i % 3], m))
+        outs = [tuple(conn.burst(frames))] + [()] * (len(seq) - 1)
+        seq = ()
     for i, tok in enumerate(seq):
         unit, m = scenario.token(tok, i, cfg)
         f = scenario.frame(framing, unit, TIDS[i % 3], m)
@@ -109,6 +117,8 @@ def shard_equiv(args):
                         r0 = compare(acc, framing, cfg, seq, delivery, fronts, whole_base if delivery != 'whole' else None)
                         if delivery == 'whole':
                             whole_base = r0
+                    if n == 2:
+                        compare(acc, framing, cfg, seq, 'burst', fronts, None)
                     dg = [f for f in fronts if servers.FRONTS[f][0] != 'stream']
                     if n <= 2 and len(dg) > 1:
                         compare(acc, framing, cfg, seq, 'debris-first', dg, whole_base)
